@@ -726,6 +726,24 @@ hdf_write_dim(XDR *xdrs, NC *handle, NC_dim **dim, int32 cnt)
     else
         strcpy(name, (*dim)->name->values);
 
+    /* a default name that changes here takes the dimension's coordinate variable along: the variable is found
+       by that name when the file is read, and would otherwise lose its scale and attributes */
+    if (strcmp(name, (*dim)->name->values) != 0 && handle->vars != NULL) {
+        NC_var **vp = (NC_var **)handle->vars->values;
+
+        for (unsigned ii = 0; ii < handle->vars->count; ii++, vp++)
+            if ((*vp)->assoc->count == 1 && (*vp)->var_type == IS_CRDVAR &&
+                ((NC_dim **)handle->dims->values)[(*vp)->assoc->values[0]] == (*dim) &&
+                NC_compare_string((*vp)->name, (*dim)->name) == 0) {
+                NC_string *renamed = NC_new_string((unsigned)strlen(name), name);
+
+                if (renamed == NULL)
+                    HGOTO_FAIL(FAIL);
+                NC_free_string((*vp)->name);
+                (*vp)->name = renamed;
+            }
+    }
+
     /* write out the dimension group? */
     (*dim)->vgid = VHmakegroup(handle->hdf_file, tags, refs, count, name, class);
 
